@@ -73,6 +73,36 @@ def handle (op : String) (a : List String) : Option String :=
       some ("ok " ++ hxv (Ed25519.leBytes 32 ((Ed25519.leNat a * Ed25519.leNat b + Ed25519.leNat c) % Ed25519.L)))
     | _, _, _ => none
   | "c14.sccanon", [x] => (parseV x).map fun x => if x.length = 32 ∧ Ed25519.leNat x < Ed25519.L then "1" else "0"
+  -- field arithmetic of the internal package (through the verif hooks): the specification is arithmetic modulo 2^255-19 on the
+  -- value of the limbs; raw limbs (`c14.fel`), `sqrtratio` and `swap` are answered by the translated code only
+  | "c14.fel", _ => some "-"
+  | "c14.fe", [op, a, b, k, x] =>
+    match parseV a, parseV b, k.toNat?, parseV x with
+    | some a, some b, some k, some x =>
+      let limbs := fun (l : Bytes) => (List.range 5).foldr (fun i acc => Ed25519.leNat ((l.drop (8 * i)).take 8) + 2 ^ 51 * acc) 0
+      let p := Ed25519.p
+      let A := limbs a
+      let B := limbs b
+      let enc := fun (v : Nat) (n : Nat) => some ("ok " ++ hxv (Ed25519.leBytes 32 (v % p)) ++ " " ++ toString n)
+      match op with
+      | "mul" => enc (A * B) 0
+      | "sq" => enc (A * A) 0
+      | "add" => enc (A + B) 0
+      | "sub" => enc (A % p + p - B % p) 0
+      | "neg" => enc (p - A % p) 0
+      | "inv" => enc (Ed25519.modPow A (p - 2) p) 0
+      | "pow22523" => enc (Ed25519.modPow A (2 ^ 252 - 3) p) 0
+      | "mult32" => enc (A * k) 0
+      | "abs" => enc (if A % p % 2 = 1 then p - A % p else A) 0
+      | "carry" => enc A 0
+      | "reduce" => enc A 0
+      | "bytes" => enc A 0
+      | "equal" => enc A (if A % p = B % p then 1 else 0)
+      | "isneg" => enc A (A % p % 2)
+      | "select" => enc (if k = 1 then A else B) 0
+      | "setbytes" => enc (Ed25519.leNat x % 2 ^ 255) 0
+      | _ => some "-"
+    | _, _, _, _ => none
   | "c14.key", [seed] => (parseV seed).map fun seed => "ok " ++ hxv (Ed25519.newKeyFromSeed sha512 seed)
   | "c14.sign", [seed, msg] =>
     match parseV seed, parseV msg with
